@@ -37,19 +37,19 @@ EXHAUSTIVE = {'quick': True, 'thorough': True}
 
 KINDS = ['json_dict', 'json_list', 'str', 'int', 'numpy', 'pandas', 'generator', 'lazy', 'listnp', 'dir', 'continues', 'empty_gen', 'empty_listnp', 'empty_dir', 'figure']
 RAISE_KINDS = {
-    'json_dict': ['raise_before', 'raise_after_log', 'bad_type', 'near_type', 'unserializable'],
-    'json_list': ['raise_before', 'raise_after_log', 'bad_type', 'near_type', 'unserializable'],
-    'int': ['raise_before', 'raise_after_log', 'bad_type', 'near_type'],
-    'str': ['raise_before', 'raise_after_log', 'bad_type', 'near_type'],
-    'numpy': ['raise_before', 'raise_after_log', 'bad_type', 'near_type'],
-    'pandas': ['raise_before', 'raise_after_log', 'bad_type', 'near_type'],
+    'json_dict': ['raise_before', 'raise_after_log', 'abort_after_log', 'bad_type', 'near_type', 'unserializable'],
+    'json_list': ['raise_before', 'raise_after_log', 'abort_after_log', 'bad_type', 'near_type', 'unserializable'],
+    'int': ['raise_before', 'raise_after_log', 'abort_after_log', 'bad_type', 'near_type'],
+    'str': ['raise_before', 'raise_after_log', 'abort_after_log', 'bad_type', 'near_type'],
+    'numpy': ['raise_before', 'raise_after_log', 'abort_after_log', 'bad_type', 'near_type'],
+    'pandas': ['raise_before', 'raise_after_log', 'abort_after_log', 'bad_type', 'near_type'],
     'generator': ['raise_before', 'raise_in_generator', 'bad_type', 'near_type'],
     'empty_gen': ['raise_before', 'bad_type', 'near_type'],
     'dir': ['raise_before', 'raise_mid_dir', 'bad_type'],
     'continues': ['raise_before', 'raise_mid_dir'],
     'empty_dir': ['raise_before', 'bad_type'],
 }
-DEFAULT_RAISE = ['raise_before', 'raise_after_log', 'bad_type']
+DEFAULT_RAISE = ['raise_before', 'raise_after_log', 'abort_after_log', 'bad_type']
 
 
 C_LOCALE = {'LC_ALL': 'C', 'LANG': 'C', 'PYTHONUTF8': '0', 'PYTHONCOERCECLOCALE': '0'}
